@@ -93,6 +93,10 @@ def as_sym_seq(interp: Interp, st: St, x: V):
             s.assume(z3.Or(*[n == q.length for q in seqs]))
             yield s, ("ok", SymSeq(n, lambda s2, i, seqs=seqs: V("tuple", [q.elem(s2, i) for q in seqs])))
         return
+    if x.kind == "ref" and isinstance(st.heap[x.d], HList) and st.heap[x.d].items is None:
+        h = st.heap[x.d]
+        yield st, ("ok", SymSeq(h.ln, lambda s2, i, arr=h.arr: V("sym", t=z3.Select(arr, i))))
+        return
     for s, r in symbolic_iter(interp, st, x):
         if r[0] != "ok":
             yield s, r
@@ -289,6 +293,7 @@ def cut_for(interp: Interp, node: ast.For, st: St, seq: SymSeq):
                             if r_[0] != "ok":
                                 raise Unsupported("ghost update raised")
                             s2.env["$ghost_" + nm] = r_[1]
+                    interp.normalize_arrays(s2)
                     env2 = SpecEnv(interp, s2, {"_i": i + 1, "_n": n})
                     for k, inv in enumerate(spec.inv):
                         interp.add_obligation(s2, f"loop{ordinal}/inv-preserve/{k}", env2.eval_bool(inv),
@@ -396,7 +401,7 @@ def exec_while(interp: Interp, node: ast.While, st: St):
 
 
 # ---------------------------------------------------------------------------------------------- quantified bodies
-def quantified_map(interp: Interp, st: St, seq: SymSeq, body):
+def quantified_map(interp: Interp, st: St, seq: SymSeq, body, seq_src=None):
     """Evaluate `body(st, element) -> paths` once for an arbitrary index and lift to the whole sequence.
 
     yields (st, ('ok', ('term', ys))) with  forall j. ok(j) and ys[j] == result(j)
@@ -438,17 +443,37 @@ def quantified_map(interp: Interp, st: St, seq: SymSeq, body):
             todo.extend(x.children())
         return False
     jj = z3.Int("jj!")
+    elt = None
+    try:
+        elt = interp.term(base, el)
+    except Unsupported:
+        elt = None
+
+    def pats(ys=None):
+        out = []
+        if ys is not None:
+            out.append(T.F_at(ys, jj))
+        if elt is not None and not z3.is_const(elt):
+            e2 = z3.substitute(elt, (j, jj))
+            if not z3.eq(e2, elt):
+                out.append(e2)
+        return out
     # --- all succeed
     if oks:
         for d, rt, _ in oks:
             if mentions_fresh(d) or mentions_fresh(rt):
                 raise Unsupported("fresh symbols on a success path of a quantified body")
+        if len(oks) == 1 and not fails and elt is not None and z3.eq(oks[0][1], elt) and seq_src is not None:
+            # identity map (e.g. `[render_trail_as_note(e) for e in errors]`): the result has the same elements
+            s_id = st.fork()
+            yield s_id, ("ok", ("same", seq_src))
+            return
         s_ok = st.fork()
         ys = ctx.fresh_val("ys")
         okcond = z3.Or(*[d for d, _, _ in oks])
         rng = z3.And(jj >= 0, jj < n)
         s_ok.assume(T.F_len(ys) == n)
-        s_ok.assume(z3.ForAll([jj], z3.Implies(rng, z3.substitute(okcond, (j, jj))), patterns=[T.F_at(ys, jj)]))
+        s_ok.assume(z3.ForAll([jj], z3.Implies(rng, z3.substitute(okcond, (j, jj))), patterns=pats(ys)))
         for d, rt, _ in oks:
             s_ok.assume(z3.ForAll([jj], z3.Implies(z3.And(rng, z3.substitute(d, (j, jj))),
                                                    T.F_at(ys, jj) == z3.substitute(rt, (j, jj))),
@@ -463,7 +488,9 @@ def quantified_map(interp: Interp, st: St, seq: SymSeq, body):
         s_f.assume(z3.And(k >= 0, k < n))
         if oks:
             okcond = z3.Or(*[dd for dd, _, _ in oks])
-            s_f.assume(z3.ForAll([jj], z3.Implies(z3.And(jj >= 0, jj < k), z3.substitute(okcond, (j, jj)))))
+            pp = pats()
+            s_f.assume(z3.ForAll([jj], z3.Implies(z3.And(jj >= 0, jj < k), z3.substitute(okcond, (j, jj))),
+                                 **({"patterns": pp} if pp else {})))
         else:
             s_f.assume(k == 0)
         s_f.assume(z3.substitute(d, (j, k)))
@@ -520,12 +547,17 @@ def eval_comprehension(interp: Interp, node, st: St, kind):
                 if kind == "list":
                     if sv[0] == "items":
                         yield s1, ("ok", interp.new_list(s1, sv[1]))
+                    elif sv[0] == "same":
+                        hid = new_id()
+                        s1.heap[hid] = HList(None, sv[1][0], sv[1][1])
+                        yield s1, ("ok", V("ref", hid))
                     else:
                         hid = new_id()
                         j = z3.Int("j!")
                         interp.ctx.fresh += 1
                         arr = z3.Const(f"lc_arr!{interp.ctx.fresh}", z3.ArraySort(T.I, T.Val))
-                        s1.assume(z3.ForAll([j], z3.Select(arr, j) == T.F_at(sv[1], j), patterns=[z3.Select(arr, j)]))
+                        s1.assume(z3.ForAll([j], z3.Select(arr, j) == T.F_at(sv[1], j),
+                                            patterns=[z3.Select(arr, j), T.F_at(sv[1], j)]))
                         s1.heap[hid] = HList(None, T.F_len(sv[1]), arr)
                         yield s1, ("ok", V("ref", hid))
                 elif kind == "set":
@@ -591,7 +623,10 @@ def run_comprehension(interp, node, g, st, x: V, kind):
         if r[0] != "ok":
             yield s, r
             continue
-        yield from quantified_map(interp, s, r[1], body)
+        src = None
+        if x.kind == "ref" and isinstance(s.heap[x.d], HList) and s.heap[x.d].items is None:
+            src = (s.heap[x.d].ln, s.heap[x.d].arr)
+        yield from quantified_map(interp, s, r[1], body, seq_src=src)
 
 
 def _comp_concrete(interp, st, items, body):
